@@ -872,7 +872,7 @@ def api_sources(quick):
         out += [
             {"t": "newgroup", "name": "N", "open": True, "doc": "fix:layers/group.psd", "into_group": True},
             {"t": "frompil", "name": "in fixture", "w": 3, "h": 3, "doc": "fix:layers/pixel-layer.psd", "psd_given": True},
-            {"t": "frompil", "name": "gray", "w": 3, "h": 3, "mode": "L", "doc": "new-empty", "psd_given": False},
+            {"t": "frompil", "name": "gray", "w": 3, "h": 3, "mode": "L", "doc": "new-empty", "psd_given": True},
             {"t": "newgroup", "name": "日本", "open": True, "doc": "new-empty"},
         ]
     return out
@@ -1003,7 +1003,20 @@ def run(ctx: core.Run):
         "read-only property (AttributeError), Artboard and ShapeLayer raise NotImplementedError: counted as refusals "
         "(histogram oracle_ops .../read-only), not as violations",
         "a move whose right/bottom leaves int32 is accepted in memory and rejected by save with struct.error (modelled; "
-        "theorem save_rejects_rect_overflow)",
+        "theorems save_rejects_rect_overflow, move_left_overflow_rejected)",
+        "get_set/history_get assume WF: a group layer carries a section divider block (true of every group PSDImage._init or "
+        "Group.new builds; no setter removes a block: wf_set)",
+        "persists assumes Saveable (every field in its on-disk range, as the reader produces) and storable (the unicode codec "
+        "takes the name; the moved rectangle stays in int32); name_storable/uni_roundtrip discharge the codec part for both "
+        "codec instances of the model (one unit per character: BMP only; UTF-16: all scalar values)",
+        "moving keeps the size: full for every kind but fill; for fill layers move_*_partial has the exact side condition "
+        "(far edge != 0), fill_move_far_edge_zero/fill_move_changes_width show it is needed; known finding replayed from the corpus",
+        "names: Group.new copies a non-MacRoman name into the legacy field and save fails (legacy field: C19, repaired on its "
+        "branch); names above U+FFFF fail at save with the one-unit-per-character codec (C19, repaired on its branch). Both are "
+        "listed as known findings with their own signatures and disappear when those repairs are merged; the model follows the "
+        "tree through the probed Env (env_probe in this evidence)",
+        "stated in DESIGN, not proved: nothing; 'persists via C01 + C08' is replaced by a self-contained save/reopen of the "
+        "record fields and the three attribute blocks (Stored), byte framing left to C01/C03",
     ]
     if ctx.tier == "thorough":
         ctx.recheck(["PsdVerif.Props.C16"])
